@@ -25,7 +25,7 @@ RULE = ("Alphabet of ~34 write operations over 10 Sids taken from the live confi
 ASSUME = ["two entities whose paths differ only by the extension may share one data store or not (the statement excludes that pair): both the "
           "own overlay and the merged overlay are accepted for them", "get_data of a Sid without path may be {} or only its 'sid' entry",
           "tree reset between sequences is done by the harness (rmtree of the configured root)"]
-BUDGET = {"quick": (2, 320, 24, 3, 30), "thorough": (3, 9600, 160, 4, 12)}     # (exhaustive length, random sequences, fresh-process reads, sampled length, 1/k sample)
+BUDGET = {"quick": (2, 320, 24, 3, 30), "thorough": (2, 24000, 160, 3, 2)}     # (exhaustive length, random sequences, fresh-process reads, sampled length, 1/k sample)
 NSHARDS = 16
 
 
@@ -42,7 +42,7 @@ def envs(snap, shard_args_list):
 def floors(m, tier):
     L, nrand, nfresh, Ls, kk = BUDGET[tier]
     c = m.counters
-    return {"sequences": (c.get("sequences", 0), 8000 if tier == "quick" else 150000),
+    return {"sequences": (c.get("sequences", 0), 8000 if tier == "quick" else 100000),
             "successful writes": (c.get("ok:set", 0) + c.get("ok:update", 0) + c.get("ok:create", 0), 5000),
             "expected SpilException observed": (c.get("refused", 0), 2000),
             "reads compared": (c.get("reads", 0), 50000),
